@@ -176,6 +176,181 @@ def check_graph(sh, root, desc, width, n_objects, other=None):
     return stats
 
 
+# ---------------------------------------------------------------- cycles through other container kinds (markers-only oracle)
+import collections as _c
+import re as _re
+import types as _t
+
+_NTL = _c.namedtuple('NTL', 'items tag')
+
+
+class _UObj:
+    def __init__(self):
+        self.args, self.kwargs = [], {}
+
+
+@prettyprinter.register_pretty(_UObj)
+def _pretty_uobj(v, ctx):
+    return prettyprinter.pretty_call_alt(ctx, _UObj, args=tuple(v.args), kwargs=list(v.kwargs.items()))
+
+
+class _DSub(dict):
+    pass
+
+
+class _LSub(list):
+    pass
+
+
+EXOTIC = ['odict', 'ddict', 'deque', 'chainmap', 'ns', 'uobj', 'dsub', 'lsub', 'ntlist', 'exc', 'list', 'dict']
+
+
+def make_exotic(kind, i):
+    """returns (node object, add(child))"""
+    if kind == 'odict':
+        o = _c.OrderedDict(id=i)
+        return o, lambda ch, n=[0]: (o.__setitem__('e%d' % n[0], ch), n.__setitem__(0, n[0] + 1))
+    if kind == 'ddict':
+        o = _c.defaultdict(list, id=i)
+        return o, lambda ch, n=[0]: (o.__setitem__('e%d' % n[0], ch), n.__setitem__(0, n[0] + 1))
+    if kind == 'deque':
+        o = _c.deque([i])
+        return o, o.append
+    if kind == 'chainmap':
+        m0 = {'id': i}
+        o = _c.ChainMap(m0, {})
+        return o, lambda ch, n=[0]: (m0.__setitem__('e%d' % n[0], ch), n.__setitem__(0, n[0] + 1))
+    if kind == 'ns':
+        o = _t.SimpleNamespace(id=i)
+        return o, lambda ch, n=[0]: (setattr(o, 'e%d' % n[0], ch), n.__setitem__(0, n[0] + 1))
+    if kind == 'uobj':
+        o = _UObj()
+        o.args.append(i)
+        return o, lambda ch, n=[0]: (o.args.append(ch) if n[0] % 2 == 0 else o.kwargs.__setitem__('k%d' % n[0], ch), n.__setitem__(0, n[0] + 1))
+    if kind == 'dsub':
+        o = _DSub(id=i)
+        return o, lambda ch, n=[0]: (o.__setitem__('e%d' % n[0], ch), n.__setitem__(0, n[0] + 1))
+    if kind == 'lsub':
+        o = _LSub([i])
+        return o, o.append
+    if kind == 'ntlist':
+        inner = [i]
+        return _NTL(inner, 'tag'), inner.append
+    if kind == 'exc':
+        inner = [i]
+        return ValueError(inner, 'msg'), inner.append
+    if kind == 'list':
+        o = [i]
+        return o, o.append
+    o = {'id': i}
+    return o, lambda ch, n=[0]: (o.__setitem__('e%d' % n[0], ch), n.__setitem__(0, n[0] + 1))
+
+
+def exotic_children(o):
+    """children in the order the bundled printers visit them (None: atom)"""
+    if isinstance(o, (int, str, bytes, float)) or o is None or isinstance(o, type):
+        return None
+    if isinstance(o, _c.ChainMap):
+        return list(o.maps)
+    if isinstance(o, _c.defaultdict):
+        out = [o.default_factory]
+        for k, v in o.items():
+            out += [k, v]
+        return out
+    if isinstance(o, dict):
+        out = []
+        for k, v in o.items():
+            out += [k, v]
+        return out
+    if isinstance(o, _c.deque):
+        return list(o)
+    if isinstance(o, _t.SimpleNamespace):
+        return [getattr(o, k) for k in sorted(vars(o))]
+    if isinstance(o, _UObj):
+        return list(o.args) + list(o.kwargs.values())
+    if isinstance(o, BaseException):
+        return list(o.args)
+    if isinstance(o, (list, tuple)):
+        return list(o)
+    raise TypeError(type(o))
+
+
+def reference_markers(o, path, out, budget):
+    ch = exotic_children(o)
+    if ch is None:
+        return
+    if id(o) in path:
+        out.append((type(o).__name__, id(o)))
+        return
+    budget[0] -= 1
+    if budget[0] < 0:
+        raise TooBig()
+    path.add(id(o))
+    try:
+        for c in ch:
+            reference_markers(c, path, out, budget)
+    finally:
+        path.discard(id(o))
+
+
+_MARK = _re.compile(r'<Recursion on (\w+) with id=(\d+)>')
+
+
+def rand_exotic_graph(rng):
+    n = rng.randint(2, 5)
+    nodes = [make_exotic(rng.choice(EXOTIC), i) for i in range(n)]
+    edges = [(rng.randrange(d), d) for d in range(1, n)]
+    for _ in range(rng.randint(1, n + 1)):
+        edges.append((rng.randrange(n), rng.randrange(n)))
+    rng.shuffle(edges)
+    for s_, d_ in edges:
+        nodes[s_][1](nodes[d_][0])
+    return [x[0] for x in nodes], edges
+
+
+def check_exotic(sh, i):
+    rng = V.rng_for('c13x', sh.seed, i)
+    nodes, edges = rand_exotic_graph(rng)
+    root = nodes[0]
+    case = {'graph': {'exotic': i, 'seed': sh.seed}, 'width': 79}
+    want = []
+    try:
+        reference_markers(root, set(), want, [4000])
+    except TooBig:
+        sh.counters['graphs skipped: expansion larger than 20000 containers'] += 1
+        return
+    TR.sizes = []
+    try:
+        text, ws = traced_print(root, rng.choice([79, 30, 10 ** 6]), 10 ** 6)
+    except M.MonitorAbort as e:
+        sh.violation('runaway-recursion', str(e), case)
+        return
+    except Exception as e:
+        sh.violation('pformat-raised', repr(e), case)
+        return
+    if ws:
+        sh.violation('warning', ws[0][1][-300:], case)
+        return
+    ok, msg, st = TR.check()
+    if not ok:
+        sh.violation('visited-trace', msg, case)
+        return
+    got = [(a, int(b)) for a, b in _MARK.findall(text)]
+    if got != want:
+        sh.violation('markers-differ-for-other-container-kinds', 'recursion markers %r, the reference DFS expects %r; kinds %s; output %r' % (
+            got[:6], want[:6], [type(x).__name__ for x in nodes], text[:300]), case)
+        return
+    again, _ = M.pp(root, width=79)
+    first, _ = M.pp(root, width=79)
+    if again != first:
+        sh.violation('reprint-differs', 'two prints of the same value differ', case)
+        return
+    sh.counters['graphs through other container kinds verified (marker sequence)'] += 1
+    sh.counters['recursion markers verified'] += len(want)
+    for x in nodes:
+        sh.see('container kinds on cycles', type(x).__name__)
+
+
 def graphs(max_nodes, max_edges):
     for n in range(1, max_nodes + 1):
         pairs = [(s, d) for s in range(n) for d in range(n)]
@@ -257,10 +432,16 @@ def run_shard(sh):
         sh.counters['random graphs'] += 1
         if i % 900 == 0:
             sh.sample({'random graph': i, 'output': prettyprinter.pformat(nodes[0])[:300]})
+    for i in range(1500 if quick else 60000):
+        idx += 1
+        if not sh.mine(idx):
+            continue
+        check_exotic(sh, i)
+        sh.case(('x', sh.seed, i), True)
 
 
 def finalize(m):
-    for name in ('outputs equal to the reference DFS', 'recursion markers verified', 'visited-set events checked', 're-prints verified', 'is_visited answers True (markers) observed'):
+    for name in ('outputs equal to the reference DFS', 'recursion markers verified', 'visited-set events checked', 're-prints verified', 'is_visited answers True (markers) observed', 'graphs through other container kinds verified (marker sequence)'):
         if not m.counters.get(name):
             m.inconclusive.append('monitor never reached: ' + name)
 
@@ -272,6 +453,16 @@ def replay(wit):
     sh = Shard('replay', 0, 0, 1)
     c = wit['case']
     g = c['graph']
+    if 'exotic' in g:
+        check_exotic(sh, g['exotic'])
+        nodes, edges = rand_exotic_graph(V.rng_for('c13x', g['seed'], g['exotic']))
+        print('node kinds:', [type(x).__name__ for x in nodes], 'edges', edges)
+        print(prettyprinter.pformat(nodes[0]))
+        for v in sh.violations:
+            print('VIOLATED', v['key'], v['what'][:700])
+        if not sh.violations:
+            print('holds on this case')
+        return not sh.violations
     if 'random' in g:
         kinds, edges, nodes = rand_graph(V.rng_for('c13r', g['seed'], g['random']))
     else:
